@@ -291,9 +291,26 @@ namespace {
         bool                   shared_byte   = false;  // both contexts accessed a common queue byte
         bool                   shape         = false;  // F-13 shape present
         int                    shape_choice  = -1;     // trace index of the preemption that let the foreign store in
-        std::string            shape_text;
+        int                    shape_ctx = 0, shape_op = 0, shape_load = 0, shape_store = 0, shape_foreign = 0;
+        long                   shape_byte = 0;
+        std::string            shape_text() const
+        {
+            return verif::cat( shape_ctx ? "consumer" : "producer", " op#", shape_op, " loads queue byte +", shape_byte, " @", shape_load, " and stores it @", shape_store,
+                "; the ", shape_ctx ? "producer" : "consumer", " stores the same byte @", shape_foreign );
+        }
         unsigned               preemptions   = 0;
         int                    trues = 0, falses = 0, deq_empty = 0, deq_some = 0;
+
+        void reset()
+        {
+            ops.n = 0;
+            start = spec_state();
+            pre_error.clear();
+            window_switch = shared_byte = shape = false;
+            shape_choice  = -1;
+            preemptions   = 0;
+            trues = falses = deq_empty = deq_some = 0;
+        }
     };
 
     // order of all operations that respects program order and real-time order and in which every result is allowed
@@ -421,9 +438,9 @@ namespace {
         return r;
     }
 
-    Exec execute( const Case& c, const std::vector< std::uint8_t >& schedule, int bound )
+    void execute( Exec& e, const Case& c, const std::vector< std::uint8_t >& schedule, int bound )
     {
-        Exec          e;
+        e.reset();
         const config& cf = configs()[ c.cfg ];
         queue_if&     q  = *cf.q;
         Sched&        sc = Sched::get();
@@ -556,9 +573,12 @@ namespace {
                                 e.shape_choice = k;
                                 break;
                             }
-                        e.shape_text = verif::cat( me ? "consumer" : "producer", " op#", ev.op, " loads queue byte +",
-                            static_cast< const char* >( ev.addr ) - static_cast< const char* >( cf.q->object() ), " @", mine->first_load, " and stores it @", pos,
-                            "; the ", other ? "consumer" : "producer", " stores the same byte @", mine->foreign_store );
+                        e.shape_ctx     = me;
+                        e.shape_op      = ev.op;
+                        e.shape_byte    = static_cast< long >( static_cast< const char* >( ev.addr ) - static_cast< const char* >( cf.q->object() ) );
+                        e.shape_load    = mine->first_load;
+                        e.shape_store   = pos;
+                        e.shape_foreign = mine->foreign_store;
                     }
                 }
             }
@@ -585,7 +605,6 @@ namespace {
                 expects = expects || e.ops[ i ].kind != CONF;
             V_CHECK( access_seen || !expects, "harness.hook-missing", "no queue access went through BLUETOE_VERIF_YIELD: hook 1 (notification_queue.hpp) is not in the tree under test" );
         }
-        return e;
     }
 
     // throws verif::failure if the history is not allowed; race = "rmw-same-byte" / "none"
@@ -601,7 +620,7 @@ namespace {
         std::string       kind;
         const std::string what = diagnose( e, kind );
         verif::fail( "queue.lost-or-duplicated",
-            verif::cat( what, "no order of the operations explains the results. ", e.shape ? "F-13 shape: " + e.shape_text + ". " : std::string(), history_text( e ) ),
+            verif::cat( what, "no order of the operations explains the results. ", e.shape ? "F-13 shape: " + e.shape_text() + ". " : std::string(), history_text( e ) ),
             verif::cat( "race=", race, " kind=", kind, " model=", c.model ? "nest" : "free" ) );
     }
 
@@ -620,16 +639,16 @@ namespace {
     }
 
     // executes `schedule` with every F-13 shaped preemption dropped; `changed` tells whether anything had to be dropped
-    Exec execute_excluding( const Case& c, std::vector< std::uint8_t > schedule, int bound, bool& changed, Exec* original = nullptr )
+    void execute_excluding( Exec& e, const Case& c, std::vector< std::uint8_t > schedule, int bound, bool& changed, Exec* original = nullptr )
     {
         changed = false;
         for ( int round = 0;; ++round )
         {
-            Exec e = execute( c, schedule, bound );
+            execute( e, c, schedule, bound );
             if ( round == 0 && original )
                 *original = e;
             if ( !e.shape )
-                return e;
+                return;
             changed  = true;
             schedule = round < 200 ? without_choice( e.shape_choice ) : std::vector< std::uint8_t >();
         }
@@ -658,12 +677,11 @@ namespace {
         if ( c.dfs )
             return run_dfs( c, rep, exclude );
 
-        Exec e;
+        static Exec e, original, clean;
         if ( exclude )
         {
             bool changed = false;
-            Exec original;
-            e = execute_excluding( c, c.sched, -1, changed, &original );
+            execute_excluding( e, c, c.sched, -1, changed, &original );
             if ( changed )
             {
                 rep.excluded = true;
@@ -675,7 +693,7 @@ namespace {
         }
         else
         {
-            e = execute( c, c.sched, -1 );
+            execute( e, c, c.sched, -1 );
             try
             {
                 judge( c, e, e.shape ? "rmw-same-byte" : "none" );
@@ -686,7 +704,7 @@ namespace {
                 {
                     // is the race really what breaks it? the same case with the F-13 shaped preemptions dropped must pass
                     bool changed = false;
-                    Exec clean   = execute_excluding( c, c.sched, -1, changed );
+                    execute_excluding( clean, c, c.sched, -1, changed );
                     judge( c, clean, "none" );  // throws with race=none if the failure does not need the race
                 }
                 throw;
@@ -708,10 +726,12 @@ namespace {
     {
         std::vector< std::uint8_t > schedule;
         std::uint64_t               n = 0, nontrivial = 0, skipped = 0;
+        static Exec                 e, clean;
+        static std::vector< verif::sched::Choice > trace;
         for ( ;; )
         {
-            const Exec                                e     = execute( c, schedule, c.bound );
-            const std::vector< verif::sched::Choice > trace = Sched::get().trace;
+            execute( e, c, schedule, c.bound );
+            trace = Sched::get().trace;
             ++n;
             if ( exclude && e.shape )
                 ++skipped;  // the same schedule without the F-13 shaped preemption is another leaf of this tree
@@ -730,7 +750,7 @@ namespace {
                         if ( e.shape && f.oracle == "queue.lost-or-duplicated" )
                         {
                             bool changed = false;
-                            Exec clean   = execute_excluding( c, schedule, c.bound, changed );
+                            execute_excluding( clean, c, schedule, c.bound, changed );
                             judge( c, clean, "none" );
                         }
                         throw;
@@ -773,18 +793,26 @@ namespace {
         return rc::gen::build< Op >( rc::gen::set( &Op::kind, rc::gen::elementOf( urn ) ), rc::gen::set( &Op::idx, verif::range< int >( 0, 8 ) ) );
     }
 
-    // 0..hi operations; shrinks by dropping operations
-    rc::Gen< std::vector< Op > > gen_ops( int hi, const std::vector< std::pair< std::size_t, int > >& kinds )
+    // lo..hi operations; shrinks by dropping operations (down to lo)
+    rc::Gen< std::vector< Op > > gen_ops( int lo, int hi, const std::vector< std::pair< std::size_t, int > >& kinds )
     {
-        return rc::gen::resize( hi, rc::gen::container< std::vector< Op > >( gen_op( kinds ) ) );
+        auto tail = rc::gen::resize( hi - lo, rc::gen::container< std::vector< Op > >( gen_op( kinds ) ) );
+        if ( lo == 0 )
+            return tail;
+        return rc::gen::apply(
+            []( const Op& first, std::vector< Op > rest ) {
+                rest.insert( rest.begin(), first );
+                return rest;
+            },
+            gen_op( kinds ), tail );
     }
 
     rc::Gen< Case > gen_random()
     {
         return rc::gen::build< Case >( rc::gen::set( &Case::cfg, verif::range< int >( 0, static_cast< int >( configs().size() ) - 1 ) ),
             rc::gen::set( &Case::model, rc::gen::weightedElement< int >( { { 3, 0 }, { 2, 1 } } ) ), rc::gen::set( &Case::first, verif::range< int >( 0, 1 ) ),
-            rc::gen::set( &Case::pre, gen_ops( 5, { { 5, Q_NOT }, { 5, Q_IND }, { 2, DEQ }, { 1, CONF }, { 1, CLEAR } } ) ),
-            rc::gen::set( &Case::prod, gen_ops( 3, { { 1, Q_NOT }, { 1, Q_IND } } ) ), rc::gen::set( &Case::cons, gen_ops( 3, { { 4, DEQ }, { 1, CONF } } ) ),
+            rc::gen::set( &Case::pre, gen_ops( 0, 5, { { 5, Q_NOT }, { 5, Q_IND }, { 2, DEQ }, { 1, CONF }, { 1, CLEAR } } ) ),
+            rc::gen::set( &Case::prod, gen_ops( 1, 3, { { 1, Q_NOT }, { 1, Q_IND } } ) ), rc::gen::set( &Case::cons, gen_ops( 1, 3, { { 4, DEQ }, { 1, CONF } } ) ),
             rc::gen::set( &Case::sched, rc::gen::container< std::vector< std::uint8_t > >( gen_choice() ) ) );
     }
 
@@ -833,7 +861,7 @@ namespace {
         std::vector< Case > all;
         for ( auto& s : subs )
         {
-            std::vector< Op > palpha, calpha = { { DEQ, 0 }, { CONF, 0 } };
+            std::vector< Op > palpha;
             for ( int i : s.idx )
             {
                 palpha.push_back( Op{ Q_NOT, i } );
@@ -856,7 +884,12 @@ namespace {
                 }
                 return r;
             };
-            const auto pp = programs( palpha ), cp = programs( calpha );
+            // indication_confirmed() only touches link layer private state and the start states cover both values of it:
+            // the consumer programs are one dequeue, two dequeues, two dequeues with a confirmation in between
+            const auto                             pp = programs( palpha );
+            const std::vector< std::vector< Op > > cp = max_ops < 2
+                ? std::vector< std::vector< Op > >{ { { DEQ, 0 } } }
+                : std::vector< std::vector< Op > >{ { { DEQ, 0 } }, { { DEQ, 0 }, { DEQ, 0 } }, { { DEQ, 0 }, { CONF, 0 }, { DEQ, 0 } } };
             for ( auto& start : s.starts )
                 for ( auto& p : pp )
                     for ( auto& q : cp )
